@@ -185,16 +185,30 @@ def run(c, facts, tier):
         had_proj = False
         while p0 is not None and p0["t"] == "map":
             had_proj = True
-            # Result::map(|(list, _)| list): projection of the collected list
-            f = p0["f"]
-            if not (f["k"] == "closure" and len(f["params"]) == 1):
-                proj_ok = False
-            else:
-                prm = rx.closure_params(f)[0]
-                bd = rx.closure_body(f)
-                if not (prm["k"] == "tuple" and len(prm["elems"]) == 2 and prm["elems"][0]["k"] in ("ident",) and rx.is_var(bd, prm["elems"][0].get("name"))):
-                    proj_ok = False
             p0 = unwrap(p0["p"])
+        # what the entry function returns, evaluated (vlib/irval.py) with the repetition having collected two unknown
+        # expressions (and one): it must be the first of them, whichever way the projection is written (a `.map` on the
+        # parser, on the Result, or statements after the `?`)
+        from .. import probe as P, irval
+
+        rt_node = p0 if p0 is not None and p0["t"] == "reptill" else None
+        if rt_node is not None:
+            for n_el in (1,):
+                els = [P.Opq("expression%d" % i_) for i_ in range(n_el)]
+
+                class EC(irval.Ctx):
+                    def rep(self, node):
+                        if node["t"] == "reptill":
+                            return [list(els), ()]
+                        raise P.NoEval("unexpected repetition")
+
+                try:
+                    rv_ = irval.run_parser_fn(facts.fn(entry), EC(facts, b, facts.fn(entry).module))
+                    rv_ = rv_[1] if isinstance(rv_, tuple) and rv_ and rv_[0] == "ok" else rv_
+                    if rv_ is not els[0]:
+                        proj_ok = False
+                except (P.NoEval, P.Panic):
+                    proj_ok = False
         if p0 is not None and p0["t"] == "reptill":
             stop = unwrap(p0["stop"])
             item = unwrap(p0["p"])
@@ -232,6 +246,7 @@ def run(c, facts, tier):
                         acc_ok = True
                     if base["k"] == "index" and rx.is_var(base["e"], outname) and rx.int_const(base["idx"]) == 0:
                         acc_ok = True
+                acc_ok = acc_ok or (proj_ok and rt_node is not None)  # evaluated above: the one collected expression is returned
                 ok = True if acc_ok else None
                 detail = "entry = repeat_till(%d.., %s, eof); result is an element of the (single-element, see C01.single-pass) list" % (p0["min"], start) if acc_ok else "returned value is not recognisably an element of the collected list: %s" % src(ret)
         elif p0 is not None and p0["t"] == "seq":
